@@ -47,11 +47,13 @@ Init == /\ out = [p \in {} |-> 0] /\ crash = [b \in {} |-> FALSE]
         /\ phase = [b \in 1..NBatches |-> "gen"]
         /\ passed = 0 /\ failed = 0 /\ faults = [p \in {} |-> ""] /\ fs = {} /\ ended = FALSE
 
-\* programs are generated in id order; a batch becomes ready when its last program is done; in sequential mode the next
-\* batch is not started before the previous one has been checked and counted
+\* a batch becomes ready when its last program is done
 GenProgram(p, o) ==
-  /\ ~ended /\ p \notin DOMAIN out /\ \A q \in 1..(p - 1) : q \in DOMAIN out
-  /\ (~Pool => \A b \in 1..(BatchOf(p) - 1) : phase[b] = "updated")
+  /\ ~ended /\ p \notin DOMAIN out
+  \* sequential mode: id order, and the previous batch has been checked and counted; pool mode: the programs of a batch are
+  \* generated concurrently, after every earlier batch has been generated completely
+  /\ (~Pool => (\A q \in 1..(p - 1) : q \in DOMAIN out) /\ (\A b \in 1..(BatchOf(p) - 1) : phase[b] = "updated"))
+  /\ (Pool => \A b \in 1..(BatchOf(p) - 1) : phase[b] # "gen")
   /\ out' = [q \in DOMAIN out \cup {p} |-> IF q = p THEN o ELSE out[q]]
   /\ fs' = fs \cup {<<"batch", BatchOf(p)>>} \cup (IF o.kind = "tool" THEN {} ELSE {<<"tmp", p>>})
   /\ phase' = IF PidsOf(BatchOf(p)) \subseteq DOMAIN out \cup {p} THEN [phase EXCEPT ![BatchOf(p)] = "ready"] ELSE phase
